@@ -321,6 +321,8 @@ def m_index(I, st, info, args, depth):
     b = I.resolve(st, b) if b is not None and rk in ("Range", "RangeTo") else L
     if not (isinstance(a, Aff) and isinstance(b, Aff)):
         return None
+    if a == Aff(0) and b == L and isinstance(raw, (Seq, StrV)):
+        return ret(st, raw)     # the whole of it (`&x[..]`): the same bytes under the same name
     out = []
     for s2, t1 in MD.fork_bool(I, st, I.compare(st, "Le", a, b)):
         if not t1:
@@ -651,6 +653,7 @@ def m_expand(I, st, info, args, depth):
     if not (isinstance(p, Struct) and p.adt == "HkdfPrk"):
         return None
     infos = deref(I, st, args[1])
+    import os
     if isinstance(infos, Seq) and infos.elems is not None:
         idesc = _flat([cd(I, st, x) for x in infos.elems])
     else:
@@ -1224,3 +1227,8 @@ def renorm(desc, zero_names):
         store.append(new)
         body = body[:m.start()] + "§%d§" % (len(store) - 1) + body[m.end():]
     return unprot(expand(body))
+
+
+# the iterator models cut byte cursors with the canonical slice names of this module
+from . import models_iter as _MI
+_MI.SUBSEQ = lambda I, st, sq, a, b: subseq(I, st, sq, a, b)
